@@ -95,12 +95,14 @@ pub struct LCfg {
     pub idle: Vec<u64>,
     pub faults: bool,
     pub closure: bool,
+    /// the DISCONNECT of stop() and the publishes are larger than the loop's 4096-byte output buffer, so they are half-encoded for a while
+    pub big: bool,
 }
 
 impl LCfg {
     pub fn base(name: &str, mode: LoopMode) -> LCfg {
         LCfg { name: name.to_string(), mode, requests: vec![Req::Start, Req::Stop, Req::StopDisconnect, Req::Close], max_requests: 3, max_attempts: 2, budget: 2, max_depth: 26, keep_alive: 0,
-            connect_timeout: Duration::from_secs(5), base: Duration::from_secs(1), max: Duration::from_secs(8), stability: Duration::from_secs(30), jitter: false, offline: OfflineQueuePolicy::PreserveAll, idle: Vec::new(), faults: true, closure: true }
+            connect_timeout: Duration::from_secs(5), base: Duration::from_secs(1), max: Duration::from_secs(8), stability: Duration::from_secs(30), jitter: false, offline: OfflineQueuePolicy::PreserveAll, idle: Vec::new(), faults: true, closure: true, big: false }
     }
 
     pub fn client_options(&self) -> MqttClientOptions {
@@ -122,8 +124,8 @@ impl LCfg {
     }
 
     pub fn describe(&self) -> String {
-        format!("lifecycle[{}] mode={:?} requests={:?} max_requests={} max_attempts={} budget={} depth={} keep_alive={} connect_timeout={:?} backoff=({:?},{:?},{:?},jitter={}) offline={:?}",
-            self.name, self.mode, self.requests, self.max_requests, self.max_attempts, self.budget, self.max_depth, self.keep_alive, self.connect_timeout, self.base, self.max, self.stability, self.jitter, self.offline)
+        format!("lifecycle[{}] mode={:?} requests={:?} max_requests={} max_attempts={} budget={} depth={} keep_alive={} connect_timeout={:?} backoff=({:?},{:?},{:?},jitter={}) offline={:?} big={}",
+            self.name, self.mode, self.requests, self.max_requests, self.max_attempts, self.budget, self.max_depth, self.keep_alive, self.connect_timeout, self.base, self.max, self.stability, self.jitter, self.offline, self.big)
     }
 }
 
@@ -289,9 +291,9 @@ impl LWorld {
         let op = match req {
             Req::Start => ClientOp::Start,
             Req::Stop => ClientOp::Stop(None),
-            Req::StopDisconnect => ClientOp::Stop(Some(VDisconnect::default())),
+            Req::StopDisconnect => ClientOp::Stop(Some(if self.cfg.big { VDisconnect { reason_string: Some("r".repeat(5000)), ..Default::default() } } else { VDisconnect::default() })),
             Req::Close => ClientOp::Close,
-            Req::Publish => { self.publishes += 1; ClientOp::Submit { tag: self.publishes, packet: Pkt::Publish(VPublish { topic: "t".into(), qos: 1, payload: Some(vec![self.publishes as u8]), ..Default::default() }), ack_timeout: None } }
+            Req::Publish => { self.publishes += 1; ClientOp::Submit { tag: self.publishes, packet: Pkt::Publish(VPublish { topic: "t".into(), qos: 1, payload: Some(if self.cfg.big { vec![self.publishes as u8; 5000] } else { vec![self.publishes as u8] }), ..Default::default() }), ack_timeout: None } }
         };
         match req {
             Req::Start => { self.start_since_stop = true; self.stop_pending = false; }
